@@ -34,12 +34,12 @@ def showList (l : List Int) : String := "[" ++ showInts l ++ "]"
 
 def showRes : SortRes → String
   | .valueError => "err ValueError"
-  | .unsortableAtCall ds => "err Unsortable " ++ showIdSet ds
+  | .unsortableAtCall ds => "err Unsortable " ++ showIdSet ds.eraseDups
   | .emptyList => "list [] ok"
   | .gen g =>
     "gen " ++ showList g.ids ++ (match g.raised with
       | none => " ok"
-      | some ds => " Unsortable " ++ showIdSet ds)
+      | some ds => " Unsortable " ++ showIdSet ds.eraseDups)
 
 def specAnswer (t : Spec.Table Int) (docids : List Int) (rev : Bool) (limit : Option Int)
     (st : Option SortType) (raiseU : Bool) : String :=
